@@ -77,7 +77,9 @@ func xPrint(ns []*xNode) string {
 
 var xLits = []string{"0", "1", "2", "3", "-1", "7", "10", "0.5", "2.5", "GET", "x", "abc", "", "a b", "200", "404"}
 var xKeys = []string{"src", "line", "verb", "code", "path", "@"}
-var xExcluded = map[string]bool{"load": true, "lookup": true, "haskey": true, "color": true, "time": true}
+// @for: a random continuation expression is almost always constant-true and costs a million iterations per line;
+// the range family draws @for with bounded conditions instead
+var xExcluded = map[string]bool{"load": true, "lookup": true, "haskey": true, "color": true, "time": true, "@for": true}
 var xScalar = []string{"sumi", "subi", "multi", "upper", "lower", "prefix", "suffix", "len", "eq", "neq", "if", "unless", "coalesce", "bucket", "substr", "not", "and", "or", "lt", "gt", "maxi", "mini", "isint", "select", "format", "like"}
 
 type xGen struct {
@@ -212,6 +214,11 @@ var c10RangeShapes = []string{
 	`{@in {code} {@map %A "%S"}}`,
 	`{@join {@for 0 {lt {0} 4} {sumi {0} 1}} {@len %A}}`,
 	`k:{@map %A "%S"}:{@filter %A "%S"}`,
+	// sub-expressions of @for that refer to the enclosing match ({0} = current value, {1} = iteration index)
+	`{@join {@for 1 {lt {1} {len {verb}}} {multi {0} 2}} ,}`,
+	`{@for {verb} {lt {1} 3} "{0}{src}"}`,
+	`{@len {@for 0 {and {lt {1} 6} {lt {0} {code}}} {sumi {0} 97}}}`,
+	`{@join {@for {line} {and {lt {1} 4} {path}} {sumi {0} {line}}} /}`,
 }
 var c10Arrays = []string{`{@split {0} " "}`, `{@ {1} {2} {3}}`, `{@range 1 5}`, `{@split {path} /}`, `{@ {verb} {code}}`, `{$ {2} 7 {line}}`, `{@split {0}}`}
 var c10Subs = []string{`{upper {0}}`, `{len {0}}`, `{sumi {0} {code}}`, `{isnum {0}}`, `{prefix {0} G}`, `{0}{verb}`, `{multi {0} 2}`, `{eq {0} {1}}`, `{substr {0} 0 2}`, `{if {isint {0}} {sumi {0} 1} x}`, `{src}:{0}`}
@@ -230,6 +237,11 @@ var c10DateConsts = []string{`01/02/2006`, `2006-01-02`, `"Jan 2 2006"`, `2006-0
 
 func init() {
 	worlds["C10"] = func(rc *RunCtx) {
+		if (rc.Index/2)%5 == 4 && rc.Mode != simrt.ModeFree {
+			// one run in five goes through the command line: --funcs, global output flags, `expression --no-optimize`
+			c10CliWorld(rc)
+			return
+		}
 		t := rc.Tape
 		for k := range funclib.Additional {
 			delete(funclib.Additional, k)
